@@ -4,6 +4,7 @@ package main
 
 import (
 	"regexp"
+	"strings"
 
 	"github.com/google/pprof/profile"
 )
@@ -43,9 +44,23 @@ func c17Gen(r *Rng, mode string, n int) c17Case {
 		p.Sample = nil
 	}
 	if mode == "web" {
-		// the driver addresses sample types by name: keep them distinct and non-empty
+		// the driver regroups sample types by name when fetching: keep them distinct
 		for i, st := range p.SampleType {
 			st.Type = st.Type + "_" + string(rune('a'+i))
+		}
+	}
+	adversarial := r.Chance(45)
+	if adversarial {
+		c17AdversarialTypes(r, p, mode == "web")
+	}
+	if r.Chance(15) { // DefaultSampleType: an existing name, a case variant, or nothing that exists
+		switch r.Intn(3) {
+		case 0:
+			p.DefaultSampleType = p.SampleType[r.Intn(len(p.SampleType))].Type
+		case 1:
+			p.DefaultSampleType = strings.ToUpper(p.SampleType[r.Intn(len(p.SampleType))].Type)
+		default:
+			p.DefaultSampleType = "nosuchtype"
 		}
 	}
 	// file-name strategies: built-in trim prefixes, equal names in different files
@@ -125,6 +140,33 @@ func c17Gen(r *Rng, mode string, n int) c17Case {
 	// the header fields below would make the driver drop frames before Stacks() sees them
 	p.DropFrames, p.KeepFrames = "", ""
 	cs := c17Case{Mode: mode, Profile: Canon(p), SampleIndex: r.Intn(len(p.SampleType))}
+	var pickSel0 func(col int) (bool, string)
+	pickSel := func(col int) (bool, string) {
+		by, sel := pickSel0(col)
+		if by && mode == "web" { // the web stream only sends selections the rules accept (a refused one is status 400)
+			if _, ok := c17SelectIndex(p, sel); !ok {
+				return false, ""
+			}
+		}
+		return by, sel
+	}
+	pickSel0 = func(col int) (bool, string) { // how column col is asked for
+		name := p.SampleType[col].Type
+		switch k := r.Intn(20); {
+		case k < 9:
+			return false, "" // by index
+		case k < 16:
+			return true, name // by its name — what the web UI's sample menu generates
+		case k == 16:
+			return true, "inuse_" + name
+		case k == 17:
+			return true, "" // the default selection
+		case k == 18 && mode == "direct": // a text that may name no column: case variants, padding
+			return true, []string{strings.ToUpper(name), strings.ToLower(name), strings.Title(name), name + " ", " " + name, "alloc_" + name, name + "x"}[r.Intn(7)]
+		}
+		return false, ""
+	}
+	cs.BySel, cs.Sel = pickSel(cs.SampleIndex)
 	if mode == "web" {
 		cs.Gran = c17WebGrans[r.Intn(len(c17WebGrans))]
 	} else {
@@ -150,6 +192,7 @@ func c17Gen(r *Rng, mode string, n int) c17Case {
 			switch r.Intn(9) {
 			case 0, 1:
 				b.SampleIndex = (a.SampleIndex + 1 + r.Intn(len(p.SampleType)-1)) % len(p.SampleType)
+				b.BySel, b.Sel = pickSel(b.SampleIndex)
 			case 2:
 				for b.Gran == a.Gran {
 					b.Gran = c17WebGrans[r.Intn(len(c17WebGrans))]
@@ -178,7 +221,7 @@ func c17Gen(r *Rng, mode string, n int) c17Case {
 		if r.Chance(30) && len(names) > 0 { // the checked request itself carries a filter
 			last.Filters = map[string]string{[]string{"f", "i", "h", "s"}[r.Intn(4)]: names[r.Intn(len(names))]}
 		}
-		cs.SampleIndex, cs.Gran, cs.NoInlines, cs.ShowColumns, cs.Filters = last.SampleIndex, last.Gran, last.NoInlines, last.ShowColumns, last.Filters
+		cs.SampleIndex, cs.Gran, cs.NoInlines, cs.ShowColumns, cs.Filters, cs.BySel, cs.Sel = last.SampleIndex, last.Gran, last.NoInlines, last.ShowColumns, last.Filters, last.BySel, last.Sel
 		prev := last
 		for i, k := 0, 1+r.Intn(2); i < k; i++ {
 			prev = change(prev)
@@ -342,4 +385,53 @@ func c17LenString(r *Rng, mode string) string {
 		b = b[:n]
 	}
 	return string(b)
+}
+
+// c17AdversarialTypes renames the sample types with names that a sloppy name→column lookup would
+// confuse: equal under (ASCII or Unicode) case folding, numbers, the legacy inuse_/alloc_ prefix
+// relations, names with spaces, the empty name, duplicates (not on the web path, where fetching
+// regroups columns by name).
+func c17AdversarialTypes(r *Rng, p *profile.Profile, web bool) {
+	families := [][]string{
+		{"Events", "events", "EVENTS", "eVents"},
+		{"cpu", "CPU", "Cpu"},
+		{"0", "1", "-1", "+1", "2", "007", "1e3", "0x1", "99999999999999999999"},
+		{"space", "inuse_space", "alloc_space", "inuse_inuse_space", "Inuse_space", "INUSE_SPACE"},
+		{"objects", "inuse_objects", "alloc_objects", "inuse_"},
+		{"cpu time", " cpu", "cpu ", "cpu\ttime", "a b c"},
+		{"k", "K", "\u212a", "s", "S", "\u017f"}, // Kelvin sign / long s: equal under Unicode simple folding
+		{"straße", "STRASSE", "strasse"},
+		{"", "x"},
+	}
+	fam := families[r.Intn(len(families))]
+	perm := make([]string, len(fam))
+	copy(perm, fam)
+	for i := len(perm) - 1; i > 0; i-- {
+		j := r.Intn(i + 1)
+		perm[i], perm[j] = perm[j], perm[i]
+	}
+	used := map[string]bool{}
+	for i, st := range p.SampleType {
+		name := perm[i%len(perm)]
+		if i >= len(perm) || (!web && r.Chance(12)) { // beyond the family / deliberate duplicate
+			name = perm[r.Intn(len(perm))]
+		}
+		for web && used[name] {
+			name += "'"
+		}
+		used[name] = true
+		st.Type = name
+	}
+	// at least two columns make the selection observable
+	for len(p.SampleType) < 2 || (len(p.SampleType) < 3 && r.Chance(40)) {
+		name := perm[len(p.SampleType)%len(perm)]
+		for web && used[name] {
+			name += "'"
+		}
+		used[name] = true
+		p.SampleType = append(p.SampleType, &profile.ValueType{Type: name, Unit: "count"})
+		for _, s := range p.Sample {
+			s.Value = append(s.Value, int64(r.Intn(2000))-500)
+		}
+	}
 }
